@@ -143,15 +143,21 @@ PROPS = {
         "level_note": "PARTIAL: proved for every run of the node model — no contacts: Bootstrapped in the starting step and the worker never attempts anything; with contacts: no Bootstrapped publication, no handled completion and no returning bootstrapped() before a contact's response was accepted; every waiter resolved in the step of the completion, nobody left waiting while bootstrapped, immediate return while bootstrapped; API commands always answered; first-round contacts pairwise distinct (the F15 assertion is unreachable). Not proved in Lean — the timed clause (resolution within about 11 minutes of a contact becoming responsive after any outage pattern): decided by the [C15] oracle of the node engine on outage/flapping scenarios against the real node (tie). Finding F15 demonstrated by the node engine and fixed in /repo",
     },
     "C11": {
-        "engines": [{"name": "node", "quick": 42, "thorough": 210, "oracle_tag": "C11"}],
+        "engines": [{"name": "node", "quick": 42, "thorough": 210, "oracle_tag": "C11"},
+                    # the status / bucket rules the C11 theorems build on are those of C10 / C08: their tie
+                    {"name": "table", "quick": 30, "thorough": 400, "oracle_tag": "C10", "op_filter": ["n", "contacts", "counts", "local", "remote"]}],
         "constants": ["REFRESH_INTERVAL_TIMEOUT_ns", "REFRESH_CONCURRENCY", "RECENTLY_REQUESTED_SECS", "MAX_LAST_SEEN_MINS", "MAX_REFRESH_REQUESTS", "PINGS_PER_BUCKET"],
         "trusted": NODE_TRUST,
         "assumptions": [],
         "level_note": "PARTIAL: proved — a refresh round queries exactly the first 4 waiting questionable contacts (all if <= 4) and leaves the next round pending 6 s later for ever (one chain: C18); an accepted answer makes the listed contact good at once; two unanswered queries after the 15 min window make it bad, and bad contacts are neither listed nor handed out (C10/C08). Not proved in Lean — the quantitative bounds (good again within 30 s; gone within 20 min of the last answer / 5 min of the last naming) over all interleavings with latencies: decided by the [C11] oracle on hours-long runs of the real node sampled every 5 virtual seconds, in lockstep with the model (tie). Suspicion F11 (a responsive contact transiently bad within one round trip) was not observed by the oracle in any run",
     },
     "C01": {
-        "engines": [{"name": "node", "quick": 42, "thorough": 210, "oracle_tag": "C01"}],
-        "constants": ["MAX_VALUES_V4", "MAX_VALUES_V6", "ANNOUNCE_PICK_NUM", "TOKEN_REFRESH_INTERVAL_ns"],
+        "engines": [{"name": "node", "quick": 42, "thorough": 210, "oracle_tag": "C01"},
+                    # the links of the chain are theorems about the storage / token / handler models: their ties
+                    {"name": "storage", "quick": 30, "thorough": 400},
+                    {"name": "token", "quick": 30, "thorough": 400},
+                    {"name": "handler", "quick": 60, "thorough": 1500, "oracle_tag": "C05"}],
+        "constants": ["MAX_VALUES_V4", "MAX_VALUES_V6", "ANNOUNCE_PICK_NUM", "TOKEN_REFRESH_INTERVAL_ns", "MAX_ITEMS_STORED", "EXPIRATION_TIME_ns"],
         "trusted": NODE_TRUST,
         "assumptions": [],
         "level_note": "PARTIAL: every link of the path announce -> token -> announce_peer -> peer store (24 h, exact over all histories) -> get_peers reply -> searcher's stream is proved at model level for all inputs; the routing/liveness composition over networks of 2..9 mutually known nodes with latencies is decided by the [C01] oracle on networks of real MainlineDht instances (v4/v6, announce port set/implied, offsets seconds..beyond 24 h in the thorough tier), in lockstep with the node model (tie)",
